@@ -45,3 +45,23 @@ func Unchanged() bool { panic("verifspec: ghost function") }
 
 // Len of a slice value.
 func Len(a any) int { panic("verifspec: ghost function") }
+
+// Pair / P2 … turn multi-value results into one value for Eq / EqT.
+type Pair[A, B any] struct {
+	A A
+	B B
+}
+
+type Triple[A, B, C any] struct {
+	A A
+	B B
+	C C
+}
+
+func P2[A, B any](a A, b B) Pair[A, B] { return Pair[A, B]{a, b} }
+
+func P3[A, B, C any](a A, b B, c C) Triple[A, B, C] { return Triple[A, B, C]{a, b, c} }
+
+// W tags a value with its static type (inserted by the contract sugar around
+// the operands of Eq and EqT).
+func W[T any](x T) any { return x }
